@@ -31,7 +31,7 @@ def resolve_faults(program):
         eligible = [i for i, h in enumerate(base.hooks) if h[0] in ("before_feature", "before_rule", "before_scenario")]
         for k, exc in raw_h:
             pos = int(k) % n
-            if exc == "skip" and eligible and pos not in eligible:
+            if exc in ("skip", "skip_mark") and eligible and pos not in eligible:
                 pos = eligible[int(k) % len(eligible)]
             after_sc = [i for i, h in enumerate(base.hooks) if h[0] == "after_scenario"]
             if exc == "skip_feature" and after_sc and pos not in after_sc:
